@@ -2,29 +2,10 @@ import Apko.Proofs.Lemmas.ConfineEtag
 /-!
 `cacheDirForPackage` (`cache.go`): the directory the expanded sections of a package are cached in is the cache
 path of the package URL with the extension `.apk` cut off — *not* cleaned again, so a file name `...apk` turns
-into a trailing `..`.  Modelled here (`filepath.Ext`, `strings.TrimSuffix`); not part of the executable model.
+into a trailing `..`.  The functions (`filepath.Ext`, `strings.TrimSuffix`, `cacheDirForPackage`) live in `Model/Confine.lean`; the lemmas here.
 -/
 namespace Apko.Confine
 open Apko Apko.Path
-
-/-- what follows the last separator -/
-def lastSeg (p : Text) : Text := (p.reverse.takeWhile (· ≠ '/')).reverse
-
-/-- `filepath.Ext`: the suffix of the last element starting at its last `.` (empty when there is none) -/
-def ext (p : Text) : Text :=
-  let seg := lastSeg p
-  if '.' ∈ seg then '.' :: (seg.reverse.takeWhile (· ≠ '.')).reverse else []
-
-/-- `strings.TrimSuffix` -/
-def trimSuffix (s suf : Text) : Text :=
-  if hasSuffix s suf then (s.reverse.drop suf.length).reverse else s
-
-/-- `cacheDirForPackage(root, pkg)` with `path`, `esc` of `packageAsURL(pkg)` as in `cachePathFromURL`;
-`none`: the URL is rejected or "unexpected ext" -/
-def cacheDirForPackage (root path esc : Text) : Option Text :=
-  match cachePathFromURL root path esc with
-  | none => none
-  | some p => if ext p = T ".apk" then some (trimSuffix p (T ".apk")) else none
 
 theorem dropWhile_ne_mem {c : Char} : ∀ (l : Text), c ∈ l → ∃ r, l.dropWhile (· ≠ c) = c :: r := by
   intro l
